@@ -43,7 +43,7 @@ type lkey struct {
 	family string
 	logic  string // logical identity
 	key    []byte
-	prefix bool // an iteration prefix rather than a full key
+	prefix bool   // an iteration prefix rather than a full key
 	owner  string // for prefixes: which logical section it must capture (family + id)
 	sect   string // for full keys: the section they belong to
 }
